@@ -200,3 +200,30 @@ Theorem tag_desc_faithful : forall pp bt banned post c,
      (forall y, In y l1 -> p_tag n (fst y) (snd y) = false) /\ (forall y, In y l2 -> p_tag n (fst y) (snd y) = false)).
 Proof. exact tag_desc_faithful_lemma. Qed.
 Print Assumptions tag_desc_faithful.
+
+(* ======================================================================================= *)
+(* JSON-RPC Params and Result are independent slots (proofs/CatalogMoreProofs.v).
+   run bt banned l b = the adders of the positions l, in order, from state b (add_all is this run over
+   positions_all: FaithfulProofs.add_all_run).  For a Params node p and a Result node r at ANY two positions
+   and in ANY state: Params-then-Result is accepted iff Result-then-Params is, and the resulting state -
+   the whole catalog under construction - is the same.  (Step level: that exchanging two sibling leaves of
+   the forest leaves every OTHER step unchanged is not part of this statement.) *)
+From JV.proofs Require Import CatalogMoreProofs.
+
+Theorem params_result_order_free : forall bt banned p ancp r ancr b b',
+  dk p = KParams -> dk r = KResult ->
+  (run bt banned [(p, ancp); (r, ancr)] b = COk b' <-> run bt banned [(r, ancr); (p, ancp)] b = COk b').
+Proof. exact params_result_commute_lemma. Qed.
+Print Assumptions params_result_order_free.
+
+(* the hypotheses are satisfiable, and on a whole document: JSIGHT 0.3 /
+   URL /r { Protocol json-rpc-2.0, Method foo { Params {..}, Result {..} } } and the same document with Result
+   before Params are both accepted, with one and the same catalog: both slots filled *)
+Theorem params_result_order_example :
+  dk ex_params = KParams /\ dk ex_result = KResult /\
+  exists c, ex_build (ex_slots_forest [ex_params; ex_result]) = COk c /\
+            ex_build (ex_slots_forest [ex_result; ex_params]) = COk c /\
+    map (fun e => (iid_string (fst e), cview (snd e))) (c_inters c) =
+      [(bs "json-rpc-2.0 foo /r", cvx None None false [] true true)].
+Proof. exact CatalogMoreProofs.params_result_order_example. Qed.
+Print Assumptions params_result_order_example.
